@@ -126,11 +126,19 @@ def audit_skip(c):
         # gcc 12 only warns (`assignment of read-only location`) for a store to a const BIT-FIELD member (it rejects stores to other
         # const members); 6.5.16p2 / 6.5.3.1p1 are constraints, clang rejects: these cases are audited with clang instead
         return "clang"
+    if f["form"] == "enumfix" and f["neg"] and f["ub"] in ("unsigned", "unsigned char"):
+        # clang 14 (C mode) silently wraps a negative enumerator into an unsigned fixed underlying type; C23 6.7.2.2p5 requires the
+        # VALUE to be representable, so the spec is kept and this class is not audited
+        return "skip"
+    if f["form"] == "enumfix":
+        # enum with a fixed underlying type is C23 (N3030), which gcc 12 does not implement: audited with clang -std=c2x
+        return "clang-c2x"
     return None
 
 
 def gcc_syntax(src, cc="gcc"):
-    p = subprocess.run([cc, "-std=c11", "-pedantic-errors", "-fsyntax-only", "-x", "c", "-"], input=src.encode("utf-8", "surrogateescape"),
+    cmd = ["clang", "-std=c2x", "-fsyntax-only", "-x", "c", "-"] if cc == "clang-c2x" else [cc, "-std=c11", "-pedantic-errors", "-fsyntax-only", "-x", "c", "-"]
+    p = subprocess.run(cmd, input=src.encode("utf-8", "surrogateescape"),
                        stdout=subprocess.PIPE, stderr=subprocess.PIPE)
     err = p.stderr.decode("utf-8", "replace")
     first = next((l for l in err.split("\n") if "error" in l), "")
@@ -319,6 +327,8 @@ def run_cases(ctx, cases, rend, objdir, sites, audit, do_audit=True, gcov=None, 
     # --- audit of the catalogue against gcc ---
     bad = []
     if todo_audit:
+        stats["audit_skipped"] += sum(1 for cs in todo_audit if audit_skip(cs[0]) == "skip")
+        todo_audit = [cs for cs in todo_audit if audit_skip(cs[0]) != "skip"]
         res = vlib.pmap(lambda cs: (cs[0], cs[1], audit.get(cs[1], audit_skip(cs[0]) or "gcc")), todo_audit, workers=16)
         for c, src, (grc, gmsg) in res:
             stats["audited_by_clang" if audit_skip(c) else "audited"] += 1
